@@ -38,7 +38,8 @@ def main(tier):
             layout.append({"seed": ck.seed + 31 * n + k + rep, "N": n, "K": k, "pattern": ["random", "iota", "random", "max", "random"][rep % 5]})
     reprs = []
     for i in range(6 if tier == "quick" else 40):
-        reprs.append({"seed": ck.seed + 900 + i, "out": rng.choice([4, 8, 16, 32]), "in": rng.choice([128, 256, 384, 512]), "std": rng.choice([0.02, 1.0, 30.0]), "mean": rng.choice([0.0, 0.0, 0.5, -3.0])})
+        reprs.append({"seed": ck.seed + 900 + i, "out": rng.choice([4, 8, 16, 32]), "in": rng.choice([128, 256, 384, 512]), "std": rng.choice([0.02, 1.0, 30.0]), "mean": rng.choice([0.0, 0.0, 0.5, -3.0]),
+                      "degenerate": [] if i % 2 else [(rng.choice(["zero", "zero", "const", "tiny"]), (rng.randrange(32), rng.randrange(4))) for _ in range(rng.randint(1, 3))]})
     res = ck.impl("awq", {"layout": layout, "repr": reprs}, timeout=3000)
     if "crashed" in res:
         ck.violation("implementation worker crashed: " + res.get("stderr", "")[-300:], {"stderr": res.get("stderr")})
@@ -59,6 +60,9 @@ def main(tier):
             ck.violation(f"v1 unpack(pack(t, reorder), reorder) differs from t on a {c['N']}x{c['K']} matrix", ctx | {"t": t, "got": r["u1r"]})
         if r["p1"]["dtype"] != "torch.int32" or r["p1"]["shape"] != [c["N"], c["K"] // 8]:
             ck.violation("v1 packed tensor is not int32 of shape (rows, columns / 8)", ctx | {"got": r["p1"]["shape"]})
+        for key, verdict in r.get("pure", {}).items():
+            if verdict != "ok":
+                ck.violation(f"AWQ {key.split('/')[0]} on a 4-bit matrix held as {key.split('/')[1]}: {verdict} ({c['N']}x{c['K']})", ctx | {"t": t, "verdict": r["pure"]})
         v2 = "p2" in r
         if v2:
             if r["u2"]["data"] != t["data"] or r["u2"]["shape"] != t["shape"]:
@@ -116,7 +120,9 @@ def main(tier):
             ck.violation(f"building the optimised int4 tensor raised {r['exn']}: {r['msg'][:140]}", ctx)
             continue
         ck.count("repr_shape", f"{c['out']}x{c['in']}")
-        if r["deq_ratio"] > 1:
+        if not r.get("deq_finite", True):
+            ck.violation("the optimised int4 tensor dequantizes to NaN/Inf where the standard representation is finite (degenerate group: " + str(c.get("degenerate")) + ")", ctx)
+        elif r["deq_ratio"] > 1:
             ck.violation(f"the optimised int4 tensor dequantizes differently from the standard one beyond float16 rounding ({r['deq_ratio']:.3g}x)", ctx)
         if not r["awq_data_is_v2"] or r["awq_dtype"] != "torch.float16":
             ck.violation("the optimised tensor does not hold the v2 packing of the ungrouped codes (or is not float16)", ctx)
